@@ -1,1 +1,177 @@
-// placeholder
+//! Strict JSON parser: rejects duplicate keys at any depth, NaN/Infinity, raw control characters,
+//! trailing garbage. Returns the same tree type as the recording serializer.
+use super::recorder::V;
+
+pub struct P<'a> {
+    s: &'a [u8],
+    i: usize,
+}
+
+pub fn parse(text: &str) -> Result<V, String> {
+    let mut p = P { s: text.as_bytes(), i: 0 };
+    p.ws();
+    let v = p.value()?;
+    p.ws();
+    if p.i != p.s.len() {
+        return Err(format!("trailing characters at offset {}", p.i));
+    }
+    Ok(v)
+}
+
+impl<'a> P<'a> {
+    fn ws(&mut self) {
+        while self.i < self.s.len() && matches!(self.s[self.i], b' ' | b'\t' | b'\n' | b'\r') {
+            self.i += 1;
+        }
+    }
+    fn peek(&self) -> Option<u8> {
+        self.s.get(self.i).copied()
+    }
+    fn expect(&mut self, lit: &str) -> Result<(), String> {
+        if self.s[self.i..].starts_with(lit.as_bytes()) {
+            self.i += lit.len();
+            Ok(())
+        } else {
+            Err(format!("expected {lit} at offset {}", self.i))
+        }
+    }
+    fn value(&mut self) -> Result<V, String> {
+        match self.peek() {
+            None => Err("unexpected end".into()),
+            Some(b'{') => self.object(),
+            Some(b'[') => self.array(),
+            Some(b'"') => Ok(V::S(self.string()?)),
+            Some(b't') => self.expect("true").map(|_| V::Bool(true)),
+            Some(b'f') => self.expect("false").map(|_| V::Bool(false)),
+            Some(b'n') => self.expect("null").map(|_| V::Null),
+            Some(c) if c == b'-' || c.is_ascii_digit() => self.number(),
+            Some(c) => Err(format!("unexpected character {:?} at offset {}", c as char, self.i)),
+        }
+    }
+    fn object(&mut self) -> Result<V, String> {
+        self.i += 1;
+        let mut kv: Vec<(String, V)> = vec![];
+        self.ws();
+        if self.peek() == Some(b'}') {
+            self.i += 1;
+            return Ok(V::Map(kv));
+        }
+        loop {
+            self.ws();
+            if self.peek() != Some(b'"') {
+                return Err(format!("object key expected at offset {}", self.i));
+            }
+            let k = self.string()?;
+            if kv.iter().any(|(x, _)| *x == k) {
+                return Err(format!("duplicate key {k:?}"));
+            }
+            self.ws();
+            if self.peek() != Some(b':') {
+                return Err(format!("':' expected at offset {}", self.i));
+            }
+            self.i += 1;
+            self.ws();
+            let v = self.value()?;
+            kv.push((k, v));
+            self.ws();
+            match self.peek() {
+                Some(b',') => self.i += 1,
+                Some(b'}') => {
+                    self.i += 1;
+                    return Ok(V::Map(kv));
+                }
+                _ => return Err(format!("',' or '}}' expected at offset {}", self.i)),
+            }
+        }
+    }
+    fn array(&mut self) -> Result<V, String> {
+        self.i += 1;
+        let mut xs = vec![];
+        self.ws();
+        if self.peek() == Some(b']') {
+            self.i += 1;
+            return Ok(V::Seq(xs));
+        }
+        loop {
+            self.ws();
+            xs.push(self.value()?);
+            self.ws();
+            match self.peek() {
+                Some(b',') => self.i += 1,
+                Some(b']') => {
+                    self.i += 1;
+                    return Ok(V::Seq(xs));
+                }
+                _ => return Err(format!("',' or ']' expected at offset {}", self.i)),
+            }
+        }
+    }
+    fn string(&mut self) -> Result<String, String> {
+        self.i += 1;
+        let mut out = Vec::new();
+        loop {
+            let c = *self.s.get(self.i).ok_or("unterminated string")?;
+            self.i += 1;
+            match c {
+                b'"' => break,
+                b'\\' => {
+                    let e = *self.s.get(self.i).ok_or("bad escape")?;
+                    self.i += 1;
+                    match e {
+                        b'"' => out.push(b'"'),
+                        b'\\' => out.push(b'\\'),
+                        b'/' => out.push(b'/'),
+                        b'b' => out.push(8),
+                        b'f' => out.push(12),
+                        b'n' => out.push(b'\n'),
+                        b'r' => out.push(b'\r'),
+                        b't' => out.push(b'\t'),
+                        b'u' => {
+                            let h = std::str::from_utf8(self.s.get(self.i..self.i + 4).ok_or("bad \\u")?).map_err(|e| e.to_string())?;
+                            let cp = u32::from_str_radix(h, 16).map_err(|e| e.to_string())?;
+                            self.i += 4;
+                            let ch = char::from_u32(cp).unwrap_or('\u{fffd}');
+                            let mut b = [0u8; 4];
+                            out.extend_from_slice(ch.encode_utf8(&mut b).as_bytes());
+                        }
+                        _ => return Err(format!("bad escape \\{}", e as char)),
+                    }
+                }
+                c if c < 0x20 => return Err(format!("raw control character {c:#x} in string")),
+                c => out.push(c),
+            }
+        }
+        String::from_utf8(out).map_err(|e| e.to_string())
+    }
+    fn number(&mut self) -> Result<V, String> {
+        let st = self.i;
+        if self.peek() == Some(b'-') {
+            self.i += 1;
+        }
+        let mut is_float = false;
+        while let Some(c) = self.peek() {
+            if c.is_ascii_digit() {
+                self.i += 1;
+            } else if matches!(c, b'.' | b'e' | b'E' | b'+' | b'-') {
+                is_float = true;
+                self.i += 1;
+            } else {
+                break;
+            }
+        }
+        let t = std::str::from_utf8(&self.s[st..self.i]).unwrap();
+        if !is_float {
+            if let Ok(u) = t.parse::<u64>() {
+                return Ok(V::U(u));
+            }
+            if let Ok(i) = t.parse::<i64>() {
+                return Ok(V::I(i));
+            }
+        }
+        let x: f64 = t.parse().map_err(|_| format!("bad number {t:?}"))?;
+        if !x.is_finite() {
+            return Err(format!("non-finite number {t:?}"));
+        }
+        Ok(V::F(x))
+    }
+}
